@@ -31,8 +31,16 @@ LOG: List[Dict[str, Any]] = []
 
 
 class Mgr:
+    """(Falsy, like an empty pool or an empty mapping that is a context manager: only None / PRUNE / () end a chain.)"""
+
     def __init__(self, k: int):
         self.k = k
+
+    def __bool__(self) -> bool:
+        return self.k % 2 == 1      # every other manager of a chain is falsy
+
+    def __len__(self) -> int:
+        return self.k % 2
 
     def __enter__(self) -> "Mgr":
         return self
